@@ -81,7 +81,14 @@ impl StarkConfig {
             .validate(log_eval_domain_size, self.n_verifier_friendly_commitment_layers)?;
 
         // Validate Fri config.
-        self.fri.validate(self.log_n_cosets, self.n_verifier_friendly_commitment_layers)?;
+        let log_expected_input_degree =
+            self.fri.validate(self.log_n_cosets, self.n_verifier_friendly_commitment_layers)?;
+        // The FRI degree bound must be the trace length, i.e. the FRI input layer must be the
+        // evaluation domain.
+        ensure!(
+            log_expected_input_degree == self.log_trace_domain_size,
+            Error::FriInputSizeMismatch
+        );
         Ok(())
     }
 }
@@ -107,6 +114,8 @@ pub enum Error {
     InsufficientSecurity,
     #[error("value out of bounds {min} - {max}")]
     OutOfBounds { min: u64, max: u64 },
+    #[error("fri input size does not match the evaluation domain")]
+    FriInputSizeMismatch,
 }
 
 #[cfg(not(feature = "std"))]
@@ -129,4 +138,6 @@ pub enum Error {
     InsufficientSecurity,
     #[error("value out of bounds {min} - {max}")]
     OutOfBounds { min: u64, max: u64 },
+    #[error("fri input size does not match the evaluation domain")]
+    FriInputSizeMismatch,
 }
